@@ -40,4 +40,40 @@ def fetchAll (lt : κ → κ → Bool) (xs : List (κ × ν)) (limit : Option Na
     | none => []
     | some last => p ++ fetchAll lt xs limit (some last.1) fuel
 
+/-- Client loop against any list query `q cursor` whose items carry a key `key`: request pages,
+each time with the key of the last returned item as cursor, until an empty page comes back.
+(`fetchAll` is the instance `q := page lt xs · limit`, `key := (·.1)`.) -/
+def fetchLoop {α : Type} (q : Option κ → List α) (key : α → κ) (cursor : Option κ) : Nat → List α
+  | 0 => []
+  | fuel + 1 =>
+    let p := q cursor
+    match p.getLast? with
+    | none => []
+    | some last => p ++ fetchLoop q key (some (key last)) fuel
+
+/-! ### Descending listings (`ReverseProposals`: `start_before` exclusive, descending order)
+
+The same construction on the reversed order `fun a b => lt b a`. -/
+
+/-- Entries of a map in descending key order. -/
+def sortedEntriesDesc (lt : κ → κ → Bool) (m : AMap κ ν) : List (κ × ν) :=
+  sortedEntries (fun a b => lt b a) m
+
+/-- One page of a descending listing `xs` with an exclusive cursor `before`:
+the entries with key strictly below the cursor, at most `effLimit limit` of them. -/
+def pageDesc (lt : κ → κ → Bool) (xs : List (κ × ν)) (before : Option κ) (limit : Option Nat) : List (κ × ν) :=
+  page (fun a b => lt b a) xs before limit
+
+/-- Client loop for a descending listing. -/
+def fetchAllDesc (lt : κ → κ → Bool) (xs : List (κ × ν)) (limit : Option Nat) (cursor : Option κ) (fuel : Nat) :
+    List (κ × ν) :=
+  fetchAll (fun a b => lt b a) xs limit cursor fuel
+
+/-! ### Filtered listings (cw1-subkeys `AllAllowances`: expired entries are dropped before `take`) -/
+
+/-- `range(after exclusive).filter(p).take(limit)` -/
+def pageFiltered (lt : κ → κ → Bool) (p : κ × ν → Bool) (xs : List (κ × ν)) (after : Option κ) (limit : Option Nat) :
+    List (κ × ν) :=
+  ((afterCursor lt xs after).filter p).take (effLimit limit)
+
 end CwPlus.Paginate
